@@ -3,6 +3,7 @@ package queue
 import (
 	"context"
 	"fmt"
+	"io"
 	"net"
 	"os"
 	"strconv"
@@ -29,10 +30,16 @@ import (
 // talks to a next hop misbehaving in the middle of a session (vc01hop).
 //
 // op: C01 hop <kind r|s|l> <maxTries> <dsn> <ids> <forms> <utf8> <script>;<script>...
-//   forms, one letter per recipient: a = u<i>@d.example, l = ю<i>@d.example, u = U<i>@UP.EXAMPLE,
-//     i = u<i>@пример.example, b = u<i>@e.example.  For target.remote every distinct domain string
-//     has its own MX (own listener, own per-attempt MAIL counter); the other kinds have one next hop.
-//   script of one attempt (later attempts: no faults): mail/limit/rej/data/status/drop/quit
+//   ids: recipient id = mailbox number b (1..6) + 6*v, v = spelling variant (0..3).  Recipients with
+//     the same b and form family are DIFFERENT recipients that spell one mailbox differently
+//     (equal under address.ForLookup): the queue, the targets and the monitor keep them apart.
+//   forms, one letter per recipient: a = u<b>@d.example, l = ю<b>@d.example, u = U<b>@UP.EXAMPLE,
+//     i = u<b>@пример.example, b = u<b>@e.example, n = й<b>@d.example (NFC; odd v: NFD, v >= 2:
+//     upper case), j = u<b>@xn--e1afmkfd.example (the A-label spelling of form i; kinds s and l).
+//     Odd v flips the case of the local part (a, b, i, j: U<b>; u: u<b>; l: Ю<b>).
+//     For target.remote every distinct domain string has its own MX (own listener, own per-attempt
+//     MAIL counter); the other kinds have one next hop.
+//   script of one attempt (later attempts: no faults): mail/limit/rej/data/status/drop/quit[/body]
 //     mail   <N><act>   the first N MAIL commands of the attempt get act
 //     limit  <K><act>   once K recipients were accepted in a transaction RCPT gets act ("-o" = no limit)
 //     rej    per recipient o|t|p: RCPT answered 250|450|550
@@ -40,25 +47,75 @@ import (
 //     status per recipient o|t|p: LMTP reply after the final dot 250|452|554
 //     drop   LMTP: replies sent before the connection is dropped, "-" = all
 //     quit   act for RSET and QUIT
+//     body   what is wrong with the spooled body the target is handed in this attempt: "-" nothing,
+//            "O" it cannot be opened, "<k>" its reader fails after k octets (0 = at once, >= length
+//            = after the last octet, instead of EOF), "<k>e" the error comes together with the
+//            last octets.  The body is c01hBody (8.6 KB, so k in the middle is past what has
+//            already gone out on the wire).
 //   act letters: see vc01hop.Script.
 // Ground truth = the recipients of the transactions the hop acknowledged with 250 after the final dot.
 
-var c01hDomains = map[byte]string{'a': "d.example", 'l': "d.example", 'u': "UP.EXAMPLE", 'i': "пример.example", 'b': "e.example"}
+var c01hDomains = map[byte]string{'a': "d.example", 'l': "d.example", 'n': "d.example", 'u': "UP.EXAMPLE", 'i': "пример.example", 'b': "e.example", 'j': "xn--e1afmkfd.example"}
 
 func c01hAddr(id int, form byte) string {
+	b, v := (id-1)%6+1, (id-1)/6
 	switch form {
 	case 'l':
-		return fmt.Sprintf("ю%d@d.example", id)
+		if v%2 == 1 {
+			return fmt.Sprintf("Ю%d@d.example", b)
+		}
+		return fmt.Sprintf("ю%d@d.example", b)
+	case 'n':
+		return fmt.Sprintf("%s%d@d.example", []string{"\u0439", "\u0438\u0306", "\u0419", "\u0418\u0306"}[v%4], b)
 	case 'u':
-		return fmt.Sprintf("U%d@UP.EXAMPLE", id)
+		if v%2 == 1 {
+			return fmt.Sprintf("u%d@UP.EXAMPLE", b)
+		}
+		return fmt.Sprintf("U%d@UP.EXAMPLE", b)
 	default:
-		return fmt.Sprintf("u%d@%s", id, c01hDomains[form])
+		if v%2 == 1 {
+			return fmt.Sprintf("U%d@%s", b, c01hDomains[form])
+		}
+		return fmt.Sprintf("u%d@%s", b, c01hDomains[form])
 	}
 }
 
+// c01hWire is the spelling of a recipient on the wire (smtpconn.C.Rcpt: converted to ASCII when it
+// is not ASCII and the hop has no SMTPUTF8; "" = cannot be sent).  Computed by the harness on its
+// own (x/net/idna), it is how the hop is told which recipient to refuse.
+func c01hWire(a string, utf8 bool) string {
+	if utf8 || address.IsASCII(a) {
+		return a
+	}
+	at := strings.LastIndex(a, "@")
+	if at < 0 || !address.IsASCII(a[:at]) {
+		return ""
+	}
+	d, err := idna.ToASCII(a[at+1:])
+	if err != nil {
+		return ""
+	}
+	return a[:at] + "@" + d
+}
+
+// c01hBody: "hello", a dot-stuffed line, and lines long enough to fill several write buffers.
+var c01hBody = func() []byte {
+	var b strings.Builder
+	b.WriteString("hello\r\n.leading dot\r\n")
+	for i := 0; i < 12; i++ {
+		b.WriteString(strings.Repeat(string(rune('a'+i)), 700))
+		b.WriteString("\r\n")
+	}
+	b.WriteString("bye\r\n")
+	return []byte(b.String())
+}()
+
 func c01hParseScript(s string, keys []string) (*vc01hop.Script, error) {
 	f := strings.Split(s, "/")
-	if len(f) != 7 || len(f[0]) < 2 || len(f[1]) < 2 || len(f[2]) != len(keys) || len(f[4]) != len(keys) || len(f[3]) != 1 || len(f[6]) != 1 {
+	if len(f) == 7 {
+		f = append(f, "-")
+	}
+	if len(f) != 8 || f[7] == "" || len(f[0]) < 2 || len(f[1]) < 2 || len(f[2]) != len(keys) || len(f[4]) != len(keys) || len(f[3]) != 1 || len(f[6]) != 1 {
 		return nil, fmt.Errorf("bad script %q", s)
 	}
 	sc := vc01hop.NewScript()
@@ -87,6 +144,21 @@ func c01hParseScript(s string, keys []string) (*vc01hop.Script, error) {
 		sc.Drop, _ = strconv.Atoi(f[5])
 	}
 	sc.QuitAct = f[6][0]
+	switch bf := f[7]; {
+	case bf == "-":
+	case bf == "O":
+		sc.BodyOpen = true
+	default:
+		if strings.HasSuffix(bf, "e") {
+			sc.BodyTogether = true
+			bf = bf[:len(bf)-1]
+		}
+		k, err := strconv.Atoi(bf)
+		if err != nil || k < 0 {
+			return nil, fmt.Errorf("bad body fault in %q", s)
+		}
+		sc.BodyK = k
+	}
 	return sc, nil
 }
 
@@ -112,12 +184,23 @@ func c01hRun(t *testing.T, out *vh.Out, op string, port string) {
 	forms := toks[6]
 	utf8 := toks[7] == "1"
 	addrs := map[int]string{}
-	keyToID := map[string]int{}
+	keyToID := map[string]int{} // spelling on the wire -> recipient
 	var keys []string
 	for i, id := range ids {
 		a := c01hAddr(id, forms[i])
+		if _, dup := addrs[id]; dup {
+			t.Errorf("%s: recipient %d twice", op, id)
+			return
+		}
 		addrs[id] = a
-		k, _ := address.ForLookup(a)
+		k := c01hWire(a, utf8)
+		if k == "" {
+			k = "unsendable:" + a // refused locally, the hop never sees it
+		}
+		if _, dup := keyToID[k]; dup {
+			t.Errorf("%s: recipients %d and %d cannot be told apart at the next hop (%s)", op, keyToID[k], id, k)
+			return
+		}
 		keyToID[k] = id
 		keys = append(keys, k)
 	}
@@ -208,13 +291,18 @@ func c01hRun(t *testing.T, out *vh.Out, op string, port string) {
 	}
 
 	attempt := 0
-	install := func() {
+	bodyFaults := 0
+	install := func() *vc01hop.Script {
 		sc := vc01hop.NewScript()
 		if attempt < len(scripts) {
 			sc = scripts[attempt]
 		}
 		attempt++
 		sh.Install(sc, hops...)
+		if sc.HasBodyFault() {
+			bodyFaults++
+		}
+		return sc
 	}
 
 	var events []string
@@ -230,11 +318,12 @@ func c01hRun(t *testing.T, out *vh.Out, op string, port string) {
 	q.hostname = "mx.example.org"
 	q.autogenMsgDomain = "example.org"
 	q.Log = log.Logger{Out: log.NopOutput{}}
-	q.Target = &c01rTarget{inner: tgt, onStart: install}
+	q.Target = &c01hTarget{inner: tgt, onStart: install}
 	bt := &c01Target{addrIdx: map[string]int{}, log: &events, rng: vh.NewRng(1)}
 	for id, a := range addrs {
 		bt.addrIdx[a] = id
 	}
+	origRcpts := c01OriginalRcpts(bt, addrs)
 	q.dsnPipeline = &c01Bounce{t: bt}
 	if err := q.start(1); err != nil {
 		t.Errorf("%s: %v", op, err)
@@ -245,7 +334,7 @@ func c01hRun(t *testing.T, out *vh.Out, op string, port string) {
 		from = ""
 	}
 	id, _ := module.GenerateMsgID()
-	meta := &module.MsgMetadata{ID: id, OriginalFrom: from, DontTraceSender: true, SMTPOpts: smtp.MailOptions{UTF8: true}}
+	meta := &module.MsgMetadata{ID: id, OriginalFrom: from, DontTraceSender: true, SMTPOpts: smtp.MailOptions{UTF8: true}, OriginalRcpts: origRcpts}
 	ctx := context.Background()
 	d, err := q.Start(ctx, meta, from)
 	if err != nil {
@@ -260,7 +349,7 @@ func c01hRun(t *testing.T, out *vh.Out, op string, port string) {
 	}
 	hdr := textproto.Header{}
 	hdr.Add("Subject", "verif")
-	if err := d.Body(ctx, hdr, buffer.MemoryBuffer{Slice: []byte("hello\r\n")}); err != nil {
+	if err := d.Body(ctx, hdr, buffer.MemoryBuffer{Slice: c01hBody}); err != nil {
 		t.Errorf("%s: %v", op, err)
 		return
 	}
@@ -286,8 +375,7 @@ func c01hRun(t *testing.T, out *vh.Out, op string, port string) {
 	foreign := []string{}
 	for _, tx := range acked {
 		for _, a := range tx {
-			k, _ := address.ForLookup(a)
-			if id, ok := keyToID[k]; ok {
+			if id, ok := keyToID[a]; ok {
 				commits[id]++
 			} else {
 				foreign = append(foreign, a)
@@ -359,6 +447,12 @@ func c01hRun(t *testing.T, out *vh.Out, op string, port string) {
 	for k, v := range cmds {
 		out.StatN("hop.fault."+k, v)
 	}
+	if bodyFaults > 0 {
+		out.Stat("hop." + name + ".bodyfault")
+	}
+	if c01HasSpellings(addrs) {
+		out.Stat("hop." + name + ".spellings")
+	}
 	for _, i := range ids {
 		switch {
 		case commits[i] == 1:
@@ -369,8 +463,60 @@ func c01hRun(t *testing.T, out *vh.Out, op string, port string) {
 	}
 }
 
-// c01hGen draws one case.  bias: 0 = mixed, 1 = faults in the RCPT phase, 2 = at teardown, 3 = at MAIL.
-func c01hGen(r *vh.Rng, kind string, bias int) string {
+// c01hTarget stands between the queue and the real target: it installs the hop script of the
+// attempt and, when the script says so, hands the target a body that cannot be read to the end.
+type c01hTarget struct {
+	inner   module.DeliveryTarget
+	onStart func() *vc01hop.Script
+}
+
+type c01hDelivery struct {
+	module.Delivery
+	sc *vc01hop.Script
+}
+
+type c01hPartialDelivery struct {
+	*c01hDelivery
+	p module.PartialDelivery
+}
+
+func (t *c01hTarget) Start(ctx context.Context, m *module.MsgMetadata, from string) (module.Delivery, error) {
+	sc := t.onStart()
+	d, err := t.inner.Start(ctx, m, from)
+	if err != nil {
+		return nil, err
+	}
+	w := &c01hDelivery{Delivery: d, sc: sc}
+	if p, ok := d.(module.PartialDelivery); ok {
+		return &c01hPartialDelivery{c01hDelivery: w, p: p}, nil
+	}
+	return w, nil
+}
+
+func (d *c01hDelivery) wrap(b buffer.Buffer) buffer.Buffer {
+	if !d.sc.HasBodyFault() {
+		return b
+	}
+	fb := vc01hop.FaultBuffer{OpenErr: d.sc.BodyOpen, K: d.sc.BodyK, Together: d.sc.BodyTogether}
+	if r, err := b.Open(); err == nil {
+		fb.Data, _ = io.ReadAll(r)
+		r.Close()
+	}
+	return fb
+}
+
+func (d *c01hDelivery) Body(ctx context.Context, h textproto.Header, b buffer.Buffer) error {
+	return d.Delivery.Body(ctx, h, d.wrap(b))
+}
+
+func (d *c01hPartialDelivery) BodyNonAtomic(ctx context.Context, sc module.StatusCollector, h textproto.Header, b buffer.Buffer) {
+	d.p.BodyNonAtomic(ctx, sc, h, d.wrap(b))
+}
+
+// c01hGen draws one case.  bias: 0 = mixed, 1 = faults in the RCPT phase, 2 = at teardown, 3 = at MAIL,
+// 4 = the spooled body cannot be read in the first attempt (sub picks how), 5 = several spellings of one mailbox
+// with different per-recipient outcomes in the first attempt.
+func c01hGen(r *vh.Rng, kind string, bias, sub int) string {
 	nr := 1 + r.Intn(5)
 	if bias == 1 || r.Chance(50) {
 		nr = 3 + r.Intn(3)
@@ -391,6 +537,85 @@ func c01hGen(r *vh.Rng, kind string, bias int) string {
 		}
 		forms += string(f)
 	}
+	// spelled: positions of the recipients that spell one mailbox
+	var spelled []int
+	if bias == 5 || r.Chance(12) {
+		type rc struct {
+			id   int
+			form byte
+		}
+		var set []rc
+		fam := r.Intn(10)
+		if bias == 5 {
+			fam = sub % 10 // every family for every target in every run
+		}
+		switch {
+		case fam < 4: // case of an ASCII local part
+			f := "aabui"[r.Intn(5)]
+			set = []rc{{1, f}, {7, f}}
+			if f == 'i' && kind != "r" && r.Chance(70) {
+				// and the A-label spelling of the domain (told apart on the wire with SMTPUTF8 only)
+				utf8 = 1
+				set = append(set, rc{13, 'j'})
+				if r.Chance(40) {
+					set = append(set, rc{19, 'j'})
+				}
+			}
+		case fam < 6: // A-labels vs U-labels
+			if kind != "r" {
+				utf8 = 1
+				set = []rc{{1, 'i'}, {13, 'j'}}
+			} else {
+				set = []rc{{1, 'a'}, {7, 'a'}}
+			}
+		case fam < 7: // case of a non-ASCII local part
+			set = []rc{{1, 'l'}, {7, 'l'}}
+			if r.Chance(80) {
+				utf8 = 1
+			}
+		default: // NFC vs NFD (and case) of a non-ASCII local part
+			vs := []int{0, 1, 2, 3}
+			for j := range vs {
+				k := j + r.Intn(len(vs)-j)
+				vs[j], vs[k] = vs[k], vs[j]
+			}
+			if vs[0]%2 == vs[1]%2 {
+				vs[1] ^= 1 // at least one NFC/NFD pair
+				if vs[2] == vs[1] {
+					vs[2] ^= 1
+				}
+			}
+			for _, v := range vs[:2+r.Intn(2)] {
+				set = append(set, rc{1 + 6*v, 'n'})
+			}
+			if r.Chance(80) {
+				utf8 = 1
+			}
+		}
+		// the others: mailboxes 2.., any spelling of theirs
+		others := r.Intn(3)
+		all := append([]rc{}, set...)
+		for j := 0; j < others; j++ {
+			f := main
+			if r.Chance(25) {
+				f = "aliub"[r.Intn(5)]
+			}
+			all = append(all, rc{2 + j + 6*r.Intn(2), f})
+		}
+		for j := range all {
+			k := j + r.Intn(len(all)-j)
+			all[j], all[k] = all[k], all[j]
+		}
+		ids, forms = nil, ""
+		for j, x := range all {
+			ids = append(ids, strconv.Itoa(x.id))
+			forms += string(x.form)
+			if (x.id-1)%6 == 0 {
+				spelled = append(spelled, j)
+			}
+		}
+		nr = len(all)
+	}
 	maxTries := 1 + r.Intn(3)
 	session := "cdr" // actions that end the session
 	if kind == "r" {
@@ -399,10 +624,13 @@ func c01hGen(r *vh.Rng, kind string, bias int) string {
 	any := "tpx" + session
 	var scripts []string
 	for a := 0; a < maxTries; a++ {
-		mail, limit, data, drop, quit := "0o", "-o", "o", "-", "o"
+		mail, limit, data, drop, quit, body := "0o", "-o", "o", "-", "o", "-"
 		rej := []byte(strings.Repeat("o", nr))
 		st := []byte(strings.Repeat("o", nr))
 		heavy := a == 0 || r.Chance(40)
+		if len(spelled) > 0 && a == 0 && r.Chance(80) {
+			heavy = false // a quiet session: what differs is the answer per recipient
+		}
 		if heavy && (bias == 3 || r.Chance(15)) {
 			mail = fmt.Sprintf("%d%c", 1+r.Intn(3), any[r.Intn(len(any))])
 			if r.Chance(30) {
@@ -424,7 +652,21 @@ func c01hGen(r *vh.Rng, kind string, bias int) string {
 				st[j] = "tp"[r.Intn(2)]
 			}
 		}
-		if r.Chance(25) {
+		if len(spelled) > 0 && a == 0 {
+			// one spelling fails, another one does not
+			bad := spelled[r.Intn(len(spelled))]
+			good := spelled[r.Intn(len(spelled))]
+			for good == bad {
+				good = spelled[r.Intn(len(spelled))]
+			}
+			rej[good], st[good] = 'o', 'o'
+			if kind == "l" && r.Chance(50) {
+				st[bad] = "tp"[r.Intn(2)]
+			} else {
+				rej[bad] = "tp"[r.Intn(2)]
+			}
+		}
+		if r.Chance(25) && !(len(spelled) > 0 && a == 0 && !heavy) {
 			if kind == "l" {
 				data = string("TP"[r.Intn(2)])
 			} else {
@@ -432,7 +674,7 @@ func c01hGen(r *vh.Rng, kind string, bias int) string {
 				data = string(acts[r.Intn(len(acts))])
 			}
 		}
-		if kind == "l" && r.Chance(25) {
+		if kind == "l" && r.Chance(25) && (heavy || a > 0) {
 			drop = strconv.Itoa(r.Intn(nr))
 		}
 		if bias == 2 || r.Chance(30) {
@@ -442,7 +684,27 @@ func c01hGen(r *vh.Rng, kind string, bias int) string {
 			}
 			quit = string(acts[r.Intn(len(acts))])
 		}
-		scripts = append(scripts, strings.Join([]string{mail, limit, string(rej), data, string(st), drop, quit}, "/"))
+		if (a == 0 && bias == 4) || r.Chance(6) {
+			n := len(c01hBody)
+			pick := r.Intn(4)
+			if a == 0 && bias == 4 {
+				pick = sub % 4 // every kind of body fault for every target in every run
+			}
+			switch pick {
+			case 0:
+				body = "O"
+			case 1: // at once, or inside the first lines
+				body = strconv.Itoa([]int{0, 0, 1 + r.Intn(30)}[r.Intn(3)])
+			case 2: // every octet, then the error instead of EOF; or inside the last line
+				body = strconv.Itoa([]int{n, n, n - 1 - r.Intn(6)}[r.Intn(3)])
+			default:
+				body = strconv.Itoa(1 + r.Intn(n-1))
+			}
+			if body != "O" && r.Chance(30) {
+				body += "e"
+			}
+		}
+		scripts = append(scripts, strings.Join([]string{mail, limit, string(rej), data, string(st), drop, quit, body}, "/"))
 	}
 	return fmt.Sprintf("C01 hop %s %d 1 %s %s %d %s", kind, maxTries, strings.Join(ids, ","), forms, utf8, strings.Join(scripts, ";"))
 }
@@ -476,14 +738,15 @@ func TestVerifC01Hop(t *testing.T) {
 	n := vh.N(600) / 3
 	jobs := make(chan string, n)
 	for i := 0; i < n; i++ {
-		bias := i % 4
+		bias := i % 6
+		sub := i / 30 // bias and kind repeat every 30 cases
 		switch i % 5 {
 		case 0, 1, 2:
-			jobs <- c01hGen(r, "r", bias)
+			jobs <- c01hGen(r, "r", bias, sub)
 		case 3:
-			jobs <- c01hGen(r, "s", bias)
+			jobs <- c01hGen(r, "s", bias, sub)
 		default:
-			jobs <- c01hGen(r, "l", bias)
+			jobs <- c01hGen(r, "l", bias, sub)
 		}
 	}
 	close(jobs)
